@@ -21,6 +21,7 @@ FAMILIES = {
     "inclusion": ("grow_inclusion", "core/tracker/inclusion.go: Submitted / per-slot check loop with lags 6 and 32 / Trim, inclusion by aggregation bits (Phase0 + Electra layouts), reports to log and tracker, WithTracking broadcaster edge"),
     "workflow": ("grow_workflow", "whole system: clusters of real app.Run nodes (QBFT over libp2p, validator mocks) under faults, every core.Wire edge call on every node trace-validated against the composed workflow (value flow, causal order, C01 one root per duty and validator)"),
     "eth2wrap": ("grow_eth2wrapx", "app/eth2wrap: synthetic proposer duties/proposals + their cache (synthproposer.go), lazy connect-on-first-use client (lazy.go), ValidatorCache (cache.go); real wrappers over gated beaconmock under synctest"),
+    "p2psender": ("grow_p2psender", "p2p sender/receive/gater/relay: SendReceive/SendAsync/Send + relay retry, per-peer failure hysteresis and its log lines, RegisterHandler per-stream handling, ConnGater, relay reserver/router with expbackoff (mocknet + synctest)"),
     "retry": ("grow_retry", "app/retry + core/retry.go: backoff, duty-deadline context, error classes, Shutdown accounting, wired edges"),
 }
 
